@@ -144,11 +144,11 @@ Theorem C18_sample_planck_in_range : forall cdf logcdf logfreq x, planck_tables 
 Proof. exact sample_planck_range_lemma. Qed.
 Print Assumptions C18_sample_planck_in_range.
 
-(* H / He Lyman continua: inside the frequency table for every random number, PROVIDED the cell
-   temperature lies inside the temperature table *)
+(* H / He Lyman continua as shipped ([sample_lyman false] = no clamp): inside the frequency table for
+   every random number, PROVIDED the cell temperature lies inside the temperature table *)
 Theorem C18_sample_lyman_in_range_T_inside_table : forall freq temp cdfs T x, lyman_tables freq temp cdfs ->
   nth 0 temp 0 <= T <= nth (length temp - 1) temp 0 ->
-  exists v, sample_lyman Rops freq temp cdfs T x = Some v /\ nth 0 freq 0 <= v <= nth (length freq - 1) freq 0.
+  exists v, sample_lyman Rops false freq temp cdfs T x = Some v /\ nth 0 freq 0 <= v <= nth (length freq - 1) freq 0.
 Proof. exact sample_lyman_range_lemma. Qed.
 Print Assumptions C18_sample_lyman_in_range_T_inside_table.
 
@@ -156,9 +156,17 @@ Print Assumptions C18_sample_lyman_in_range_T_inside_table.
    and the sampled frequency is below the lowest tabulated frequency *)
 Theorem C18_sample_lyman_in_range_refuted : exists freq temp cdfs T x v, lyman_tables freq temp cdfs /\
   10 <= T <= 1000000000 /\ 1 / 10 ^ 10 <= x < 1 /\
-  sample_lyman Rops freq temp cdfs T x = Some v /\ v < nth 0 freq 0.
+  sample_lyman Rops false freq temp cdfs T x = Some v /\ v < nth 0 freq 0.
 Proof. exact sample_lyman_refuted_lemma. Qed.
 Print Assumptions C18_sample_lyman_in_range_refuted.
+
+(* the variant with the temperature clamped to the table first ([sample_lyman true], the shape of
+   the proposed fix; the regenerated flag gen_lyman_clamps says which variant the source is):
+   in range for EVERY temperature and random number *)
+Theorem C18_sample_lyman_in_range_when_clamped : forall freq temp cdfs T x, lyman_tables freq temp cdfs ->
+  exists v, sample_lyman Rops true freq temp cdfs T x = Some v /\ nth 0 freq 0 <= v <= nth (length freq - 1) freq 0.
+Proof. exact sample_lyman_clamped_range_lemma. Qed.
+Print Assumptions C18_sample_lyman_in_range_when_clamped.
 
 (* the order checks that are extracted and run on the real spectrum tables are sound *)
 Theorem C18_order_checkers_sound :
